@@ -150,17 +150,33 @@ def check_a(ck, repo):
             accs = set()
             good = 0
             bad = 0
+            cases = []  # (facts, [(callee text, [argument texts])], is raise)
             for p in block_paths(t, loops[0].body):
                 facts = dict(p.conds)
-                cs = [(src_of(c.func), [ast.unparse(a) for a in c.args]) for c in p.calls if isinstance(c.func, ast.Attribute) and c.func.attr in ("append", "extend", "insert")]
+                cl = [c for c in p.calls if isinstance(c.func, ast.Attribute) and c.func.attr in ("append", "extend", "insert")]
+                # a conditional argument `A if isinstance(v, str) else B` is two cases
+                if len(cl) == 1 and len(cl[0].args) == 1 and isinstance(cl[0].args[0], ast.IfExp) and p.ret != RAISE:
+                    ie = cl[0].args[0]
+                    tt = ast.unparse(ie.test)
+                    for pol_, arm in ((True, ie.body), (False, ie.orelse)):
+                        f2 = dict(facts)
+                        f2[tt] = pol_
+                        cases.append((f2, [(src_of(cl[0].func), [ast.unparse(arm)])], False))
+                else:
+                    cases.append((facts, [(src_of(c.func), [ast.unparse(a) for a in c.args]) for c in cl], p.ret == RAISE))
+            for facts, cs, is_raise in cases:
                 is_s, is_t = facts.get(f"isinstance({v}, str)"), facts.get(f"isinstance({v}, tuple)")
-                if p.ret == RAISE:
-                    if not (is_s is False and is_t is False):
+                is_st = facts.get(f"isinstance({v}, (str, tuple))")
+                if is_st is None:
+                    is_st = facts.get(f"isinstance({v}, (tuple, str))")
+                if is_raise:
+                    if not ((is_s is False and is_t is False) or is_st is False):
                         bad += 1
                     continue
-                if is_s is True and len(cs) == 1 and cs[0][0].endswith(".append") and cs[0][1] == [v]:
+                one = [f"({v},)", f"[{v}]"]
+                if is_s is True and len(cs) == 1 and ((cs[0][0].endswith(".append") and cs[0][1] == [v]) or (cs[0][0].endswith(".extend") and cs[0][1][0] in one)):
                     accs.add(cs[0][0].rsplit(".", 1)[0]); good += 1
-                elif is_s is False and is_t is True and len(cs) == 1 and cs[0][0].endswith(".extend") and cs[0][1] == [v]:
+                elif is_s is False and (is_t is True or is_st is True) and len(cs) == 1 and cs[0][0].endswith(".extend") and cs[0][1] == [v]:
                     accs.add(cs[0][0].rsplit(".", 1)[0]); good += 1
                 else:
                     bad += 1
@@ -393,6 +409,15 @@ def check_c(ck, repo):
     for cname, base in (("TraceableCountVectorizer", "sklearn.feature_extraction.text.CountVectorizer"), ("TraceableTfidfVectorizer", "sklearn.feature_extraction.text.TfidfVectorizer")):
         ci = repo.cls(MOD, cname)
         m = ci.methods.get("_word_ngrams")
+        bound = [s_ for s_ in ci.node.body if isinstance(s_, ast.Assign) and len(s_.targets) == 1 and isinstance(s_.targets[0], ast.Name) and s_.targets[0].id == "_word_ngrams"]
+        if m is None and len(bound) == 1:
+            # `_word_ngrams = NGramsMixin._word_ngrams` in the class body: the mixin's function is the
+            # class's own attribute, found before the scikit-learn parent's
+            okb = src_of(bound[0].value) == "NGramsMixin._word_ngrams"
+            ck.verdict(okb, "C14.c", None, src_of(bound[0]), "the mixin's implementation is bound as the class's own _word_ngrams", f"{cname}._word_ngrams is bound to {src_of(bound[0].value)}, not to NGramsMixin._word_ngrams", file=ci.module.relpath, function=cname, line=bound[0].lineno)
+            bases = ci.bases
+            ck.verdict(len(bases) == 2 and bases[0] == base and bases[1].endswith("NGramsMixin"), "C14.c", None, f"class {cname}({', '.join(b.split('.')[-1] for b in bases)})", "scikit-learn vectorizer first, mixin second (explicit binding required and present)", f"bases of {cname} are {bases}", file=ci.module.relpath, function=cname, line=ci.node.lineno)
+            continue
         if m is None:
             ck.violated("C14.c", None, f"{cname}._word_ngrams", f"{cname} does not define _word_ngrams: {base} precedes NGramsMixin in the MRO, so scikit-learn's string n-grams are used and vocabulary_ keys are not token tuples", file=ci.module.relpath, function=cname, line=ci.node.lineno)
             continue
